@@ -272,6 +272,54 @@ add_artificial_parameters(Matrix<PIP_Tree_Node::Row>& context,
   space_dim += num_art_params;
 }
 
+// Same as above, also adding to `context' the constraints defining
+// the artificial parameters in `aps': for `q = expr div denom', these are
+// `expr - denom*q >= 0' and `-expr + denom*q + denom - 1 >= 0'.
+void
+add_artificial_parameters(Matrix<PIP_Tree_Node::Row>& context,
+                          Variables_Set& params,
+                          dimension_type& space_dim,
+                          const PIP_Tree_Node::Artificial_Parameter_Sequence&
+                          aps) {
+  const dimension_type num_art_params = aps.size();
+  if (num_art_params == 0) {
+    return;
+  }
+  const dimension_type first_ap_id = space_dim;
+  add_artificial_parameters(context, params, space_dim, num_art_params);
+  dimension_type row_index = context.num_rows();
+  context.add_zero_rows(2 * num_art_params);
+  for (dimension_type k = 0; k < num_art_params; ++k) {
+    const PIP_Tree_Node::Artificial_Parameter& ap = aps[k];
+    PIP_Tree_Node::Row& ctx1 = context[row_index++];
+    PIP_Tree_Node::Row& ctx2 = context[row_index++];
+    Coefficient_traits::const_reference denom = ap.denominator();
+    if (ap.inhomogeneous_term() != 0) {
+      ctx1.insert(0, ap.inhomogeneous_term());
+    }
+    for (Linear_Expression::const_iterator
+           i = ap.begin(), i_end = ap.end(); i != i_end; ++i) {
+      const Variables_Set::const_iterator pos
+        = params.find(i.variable().id());
+      PPL_ASSERT(pos != params.end());
+      const dimension_type column = 1U
+        + static_cast<dimension_type>(std::distance(params.begin(), pos));
+      ctx1.insert(column, *i);
+    }
+    neg_assign_row(ctx2, ctx1);
+    // Note: the artificial parameters have the greatest indices in `params'.
+    const Variables_Set::const_iterator ap_pos = params.find(first_ap_id + k);
+    PPL_ASSERT(ap_pos != params.end());
+    const dimension_type ap_column = 1U
+      + static_cast<dimension_type>(std::distance(params.begin(), ap_pos));
+    ctx2.insert(ap_column, denom);
+    neg_assign(ctx1[ap_column], denom);
+    Coefficient& ctx2_0 = ctx2[0];
+    ctx2_0 += denom;
+    --ctx2_0;
+  }
+}
+
 /* Compares two columns lexicographically in a revised simplex tableau:
   - returns true if
     <CODE>
@@ -1432,9 +1480,8 @@ PIP_Decision_Node::solve(const PIP_Problem& pip,
   PPL_ASSERT(true_child != 0);
   Matrix<Row> context_true(context);
   Variables_Set all_params(params);
-  const dimension_type num_art_params = artificial_parameters.size();
   add_artificial_parameters(context_true, all_params, space_dim,
-                            num_art_params);
+                            artificial_parameters);
   merge_assign(context_true, constraints_, all_params);
   const bool has_false_child = (false_child != nullptr);
   const bool has_true_child = (true_child != nullptr);
@@ -1509,9 +1556,17 @@ PIP_Decision_Node::solve(const PIP_Problem& pip,
     // them if not necessary.
     Constraint_System cs;
     swap(cs, constraints_);
+    // The constraints may mention the artificial parameters of this node.
+    Matrix<Row> context_aps(context);
+    {
+      Variables_Set tmp_params(params);
+      dimension_type tmp_space_dim = space_dim - artificial_parameters.size();
+      add_artificial_parameters(context_aps, tmp_params, tmp_space_dim,
+                                artificial_parameters);
+    }
     for (Constraint_System::const_iterator ci = cs.begin(),
            ci_end = cs.end(); ci != ci_end; ++ci) {
-      Matrix<Row> ctx_copy(context);
+      Matrix<Row> ctx_copy(context_aps);
       merge_assign(ctx_copy, Constraint_System(*ci), all_params);
       Row& last = ctx_copy[ctx_copy.num_rows()-1];
       complement_assign(last, last, 1);
@@ -2653,8 +2708,7 @@ PIP_Solution_Node::solve(const PIP_Problem& pip,
 
   Matrix<Row> ctx(context);
   Variables_Set all_params(params);
-  const dimension_type num_art_params = artificial_parameters.size();
-  add_artificial_parameters(ctx, all_params, space_dim, num_art_params);
+  add_artificial_parameters(ctx, all_params, space_dim, artificial_parameters);
   merge_assign(ctx, constraints_, all_params);
 
   // If needed, (re-)check feasibility of context.
